@@ -63,6 +63,14 @@ class Norm:
         self.arg_map = arg_map or {}
         self.method_fields = set(method_fields)
         self.param_index_as_field = param_index_as_field or {}
+        self.drop_projection_args = None    # predicate on callee paths: calls to those are printed without arguments that are fields / getters of other arguments
+
+    def _args(self, path, args):
+        texts = [self.s(a) for a in args]
+        if self.drop_projection_args is not None and self.drop_projection_args(path):
+            import re as _re
+            texts = [x for x in texts if not any(o is not x and x.startswith(o + ".") and _re.fullmatch(r"[A-Za-z_0-9.]+", x[len(o) + 1:]) for o in texts)]
+        return texts
 
     def _fold(self, t):
         while t[0] == "cast":
@@ -118,7 +126,7 @@ class Norm:
             if is_accessor(t[1]) and len(t[2]) == 1:
                 n = t[1].rsplit("::", 1)[-1]
                 return "%s.%s" % (self.s(t[2][0]), self.field_map.get(n, n))
-            return "%s(%s)" % (fname(t[1], self.rename), ", ".join(self.s(a) for a in t[2]))
+            return "%s(%s)" % (fname(t[1], self.rename), ", ".join(self._args(t[1], t[2])))
         if k == "bin":
             op = t[1]
             base_ = op.replace("WithOverflow", "").replace("Unchecked", "")
@@ -242,6 +250,41 @@ def alts(t, limit=24):
     return [t]
 
 
+def agreed_caller_args(facts, fn, norm):
+    """{parameter name: text} for parameters that every caller fills with the same projection of another argument of the same
+    call (`f(position, .., position.tick_lower_index)`): inside f such a parameter is that projection of f's own parameter."""
+    names = fn.param_names()
+    sites = facts.callers().get(fn.path, [])
+    if not sites:
+        return {}
+    per_param = {}
+    for (cf, bi) in sites:
+        pv = prov_of(cf)
+        t = cf.blocks[bi]["t"]
+        args = [strip(pv.operand(a, bi, len(cf.blocks[bi]["s"]))) for a in t["a"]]
+        if len(args) != len(names):
+            return {}
+        for i, n in enumerate(names):
+            def rebase(x, depth=0):
+                x0 = x
+                while x0[0] in ("cast", "q") and depth < 8:
+                    x0 = x0[1]
+                for j, aj in enumerate(args):
+                    if j != i and x0 == aj and aj[0] in ("param", "var", "field", "call"):
+                        return ("param", names[j])
+                if x0[0] == "field":
+                    b = rebase(x0[1], depth + 1)
+                    return None if b is None else ("field", b, x0[2])
+                if x0[0] == "call" and len(x0[2]) == 1 and (is_accessor(x0[1]) or x0[1].rsplit("::", 1)[-1] in norm.method_fields):
+                    b = rebase(x0[2][0], depth + 1)
+                    return None if b is None else ("call", x0[1], (b,))
+                return None
+            r = rebase(args[i])
+            txt = norm.s(r) if (r is not None and r[0] != "param") else None
+            per_param.setdefault(n, set()).add(txt)
+    return {n: next(iter(v)) for n, v in per_param.items() if len(v) == 1 and None not in v}
+
+
 def summary(fn, norm, calls_pred=None, ctx=None, cut=False):
     """dict(atoms=set, calls=set, returns=set) of normalised strings. With cut="loop" the loop-carried named locals stay
     variables ($name) and their definitions are reported under "vardefs" (a loop is compared by its recurrence, not by an
@@ -306,7 +349,10 @@ def summary(fn, norm, calls_pred=None, ctx=None, cut=False):
             continue
         whole = ("call", p, tuple(pv.operand(a, bi, len(fn.blocks[bi]["s"])) for a in t["a"]))
         for v in alts(whole):
-            out["calls"].add("%s(%s)" % (fname(p, norm.rename), ", ".join(norm.s(a) for a in v[2])))
+            # (with norm.drop_projection_args: an argument that is a field / getter of another argument of the same call carries
+            # nothing the callee could not read itself)
+            texts = norm._args(p, v[2])
+            out["calls"].add("%s(%s)" % (fname(p, norm.rename), ", ".join(texts)))
     for bi, bb in enumerate(fn.blocks):
         if bb["t"]["k"] == "ret":
             t = pv.local(0, bi, len(bb["s"]))
